@@ -11,6 +11,26 @@ def _ecdf_params(c, dtype):
     return dict(x=x, val=c.real('val'), cdf=())
 
 
+def _as_array(c, v):
+    """a python list handed to these functions is converted by numpy (numpy.sort / numpy.asarray are the first thing they do):
+    the contract is stated on the converted array"""
+    from pyvc.core import Arr, SymList, is_sym, sort_kind
+    if isinstance(v, SymList):
+        k = c.ctx.fresh_int('k!probe')
+        e = v.f(k)
+        dt = 'float64' if (isinstance(e, float) or (is_sym(e) and sort_kind(e) == 'float')) else 'int64'
+        return Arr((v.n,), lambda ix, v=v: v.f(ix[0]), dt, label=getattr(v, 'label', 'list'))
+    return v
+
+
+def _norm_first(name):
+    def normalize(c, **loc):
+        loc = dict(loc)
+        loc[name] = _as_array(c, loc[name])
+        return loc
+    return normalize
+
+
 class _GE:
     qualname = 'csep.utils.stats.greater_equal_ecdf'
     oracle = 'greater_equal_ecdf'
@@ -178,6 +198,11 @@ for _k in (GE_float, GE_int, LE_float, LE_int):
 class _GQ:
     qualname = 'csep.utils.stats.get_quantiles'
     oracle = 'get_quantiles'
+    normalize_args = staticmethod(_norm_first('sim_counts'))
+
+    def accepts(c, sim_counts, obs_count):
+        from pyvc.core import Arr
+        return isinstance(sim_counts, Arr) and sim_counts.ndim == 1
 
     def requires(c, sim_counts, obs_count):
         return [sim_counts.n >= 1]
